@@ -98,7 +98,7 @@ struct res {
 };
 struct op { char kind; int i, a, b, c, d, e; long long wide; char flags[8]; char tag[32]; char s[16]; char *text; };
 
-struct slot { assemblyline_t al; int ext, cap, hiw; unsigned char *buf, *region; size_t rlen; assemblyline_t mir; unsigned char *mbuf; };
+struct slot { assemblyline_t al; int ext, cap, hiw, gapped; unsigned char *buf, *region; size_t rlen; assemblyline_t mir; unsigned char *mbuf; };
 
 static struct step cur_steps[MAXSTEPS];
 static int ncur;
@@ -181,7 +181,7 @@ static void run_pass(struct op *ops, int nops, unsigned char fill, struct res *r
     switch (o->kind) {
     case 'C':
       if (o->a) { s->ext = 1; s->cap = o->b; s->buf = o->a == 2 ? ext_region_aligned(o->b, fill, &s->region, &s->rlen) : ext_region(o->b, fill, &s->region, &s->rlen); LIB(s->al = asm_create_instance(s->buf, o->b)); }
-      else { s->ext = 0; s->cap = 0; s->hiw = 0; LIB(s->al = asm_create_instance(NULL, 0)); s->buf = s->al ? asm_get_code(s->al) : NULL; }
+      else { s->ext = 0; s->cap = 0; s->hiw = 0; s->gapped = 0; LIB(s->al = asm_create_instance(NULL, 0)); s->buf = s->al ? asm_get_code(s->al) : NULL; }
       x->ret = s->al ? 0 : 1;
       break;
     case 'Z':
@@ -249,6 +249,7 @@ static void run_pass(struct op *ops, int nops, unsigned char fill, struct res *r
       static unsigned char isnap[MIRCAP]; int isnaplen = 0;
       /* (only what calls have emitted so far: an offset set beyond that lies over bytes the library never wrote, possibly beyond its capacity) */
       if (!s->ext) { isnaplen = off0 > 0 && off0 < MIRCAP ? off0 : 0; if (isnaplen > s->hiw) isnaplen = s->hiw; memcpy(isnap, before, isnaplen); }
+      if (off0 > s->hiw) s->gapped = 1;   /* the offset was set beyond everything emitted so far: the bytes in between are nobody's (the mirror comparison below then covers the call's own range only) */
       x->off0 = off0; x->dest = -7;
       cur_al = s->al; ncur = 0;
       char *txt = strdup(o->text);
@@ -269,7 +270,7 @@ static void run_pass(struct op *ops, int nops, unsigned char fill, struct res *r
       const char *twtext = isfile ? content : o->text;
       cur_al = NULL;
       x->off1 = asm_get_offset(s->al);
-      if (x->ret == 0 && x->off1 > s->hiw) s->hiw = x->off1;
+      if (x->ret == 0 && x->off1 > off0 && x->off1 > s->hiw) s->hiw = x->off1;   /* (a call that emitted nothing has not touched - nor grown the buffer to - its offset) */
       unsigned char *after = dep ? asm_get_buffer(s->al) : asm_get_code(s->al);
       x->moved = after != before;
       s->buf = s->ext ? s->buf : after;
@@ -289,7 +290,7 @@ static void run_pass(struct op *ops, int nops, unsigned char fill, struct res *r
       }
       int end = x->ret == 0 ? x->off1 : (x->hi >= off0 ? x->hi + 1 : off0);
       if (x->ret == 0 && x->off1 >= off0) {
-        x->hlen = x->off1; x->hash = hash30(after, x->off1 > 0 ? x->off1 : 0);
+        x->hlen = x->off1; x->hash = s->gapped ? hash30(after + off0, x->off1 - off0) : hash30(after, x->off1 > 0 ? x->off1 : 0);
       }
       if (!s->ext && x->ret != 0) x->nout = -1; /* what a failed call wrote into a library-managed buffer is not diffed */
       else if (end >= off0 && end - off0 <= OUTMAX && (!s->ext || end <= s->cap)) { x->nout = end - off0; memcpy(x->out, after + off0, x->nout); }
@@ -300,7 +301,7 @@ static void run_pass(struct op *ops, int nops, unsigned char fill, struct res *r
         x->mret = iscount ? asm_assemble_string_counting_chunks(s->mir, t2, o->a, &d2) : asm_assemble_str(s->mir, t2);
         free(t2);
         x->moff1 = asm_get_offset(s->mir);
-        x->mhash = x->mret == 0 && x->moff1 >= 0 ? hash30(s->mbuf, x->moff1) : 0;
+        x->mhash = x->mret == 0 && x->moff1 >= 0 ? (s->gapped ? (x->moff1 >= off0 ? hash30(s->mbuf + off0, x->moff1 - off0) : 0) : hash30(s->mbuf, x->moff1)) : 0;
       }
       if (strchr(o->flags, 't') && have_tw && s->ext && twtext) {
         /* fresh twin: same geometry, same prior contents, configured from the script */
